@@ -258,6 +258,23 @@ func (g glSpec) build() *astisub.Subtitles {
 	return s
 }
 
+// genGLRaw draws a list every writer accepts whose texts may hold raw line breaks (C19, C20: purity and
+// determinism do not depend on the text being representable).
+func genGLRaw(t *rapid.T) glSpec {
+	g := genGL(t, false)
+	for ci := range g.Cues {
+		for li := range g.Cues[ci].Lines {
+			for ri := range g.Cues[ci].Lines[li].Runs {
+				if rapid.IntRange(0, 9).Draw(t, "rawbreak") == 0 {
+					r := &g.Cues[ci].Lines[li].Runs[ri]
+					r.Text = r.Text + rapid.SampledFrom([]string{"\n", "\r", "\r\n", "\nx", "\u2028"}).Draw(t, "break") + "y"
+				}
+			}
+		}
+	}
+	return g
+}
+
 // genGL draws a list. hostile: every optional part may be absent, references may dangle,
 // text may hold controls, leading combining marks, non-BMP runes (C08); otherwise a list
 // every writer is expected to accept (C19, C20).
@@ -268,7 +285,7 @@ func genGL(t *rapid.T, hostile bool) glSpec {
 	g.NilStyles = p("nilstyles", 6)
 	g.NilRegions = p("nilregions", 6)
 	g.Meta.Title = rapid.SampledFrom([]string{"", "Title", "A & B", "標題"}).Draw(t, "title")
-	g.Meta.Lang = rapid.SampledFrom([]string{"", "english", "french", "klingon"}).Draw(t, "lang")
+	g.Meta.Lang = rapid.SampledFrom([]string{"", "english", "french", "klingon", "de"}).Draw(t, "lang")
 	g.Meta.Copyright = rapid.SampledFrom([]string{"", "(c)"}).Draw(t, "copyright")
 	g.Meta.Framerate = rapid.SampledFrom([]int{0, 25, 30, 24}).Draw(t, "framerate")
 	if rapid.Bool().Draw(t, "hasssa") {
